@@ -34,6 +34,7 @@ def run(ctx, rep):
     imm = opcode_immediates(fx, rep)
     check_analyze(fx, rep, imm)
     check_padding(fx, rep, imm)
+    check_analyze_whole_code(fx, rep)
     rep.assume('bitvec set_unchecked/index and pointer offset behave as documented')
 
 
@@ -294,3 +295,28 @@ def check_padding(fx, rep, imm):
         rep.ok('R4-padding', 'constant', 'pad %d >= 1 + max legacy immediate (%d)' % (pad, need - 1))
     else:
         rep.violation('R4-padding', 'constant', 'to_analysed pads with %d zero bytes; a trailing PUSH32 needs %d so that reading its immediate and the following STOP stays inside the buffer' % (pad, need), f.where())
+
+
+def check_analyze_whole_code(fx, rep):
+    """R5: the jump table is built from the WHOLE padded code: the argument of analyze() in
+    to_analysed is the padded buffer itself, not a slice of it (a JUMPDEST beyond an analysed prefix
+    would be reported invalid although it is inside the code)."""
+    from cfg import Origins
+    f = fx.fns.get('revm_interpreter::interpreter::analysis::to_analysed')
+    if f is None:
+        rep.undecided('R5-analyze-whole-code', 'to_analysed', 'not found')
+        return
+    rep.fn(f)
+    og = Origins(f, fx)
+    calls = [(bi, t) for bi, t in f.calls() if (t.target_fn or '').endswith('analysis::analyze')]
+    if len(calls) != 1:
+        rep.violation('R5-analyze-whole-code', 'to_analysed', 'to_analysed calls analyze %d times' % len(calls), f.where())
+        return
+    bi, t = calls[0]
+    oo = og.of_operand(t.args[0])
+    sliced = [o for o in oo if o.root[0] == 'call' and o.root[1].split('::')[-1] in ('index', 'get', 'get_unchecked', 'split_at', 'split_first', 'split_last', 'chunks', 'truncate', 'take')]
+    whole = [o for o in oo if o.root[0] == 'call' and o.root[1].endswith(('Vec::with_capacity', 'Vec::new')) and not o.path]
+    if sliced or not whole or len(whole) != len(oo):
+        rep.violation('R5-analyze-whole-code', 'to_analysed', 'analyze() is given %s instead of the whole padded buffer: destinations outside the analysed part are never valid' % [o.render() for o in oo], f.where(bi))
+    else:
+        rep.ok('R5-analyze-whole-code', 'to_analysed', 'analyze(padded buffer)')
